@@ -74,6 +74,10 @@ def base_args(dotted):
 def raises_value_error(fn):
     try:
         fn()
+    except UnicodeError:
+        # the UTF-8 encoder refusing a lone surrogate is not argument validation (it is a
+        # ValueError subclass only by Python's class hierarchy); see C10 for refusals
+        return False
     except ValueError:
         return True
     except Exception:
@@ -298,6 +302,43 @@ def pair_cases(tier, shard, nshards):
     return out[shard::nshards]
 
 
+def check_twins(case):
+    """two names that are 'equal' for a user-defined str subclass (case-insensitive,
+    whitespace-insensitive) but consist of different characters, validated one after the
+    other: each verdict must follow from its own characters"""
+    dotted, slot = case['cls'], case['slot']
+    for v in case['names']:
+        name = canon.CIStr(v) if case['wrap'] else v
+        ok = expected_ok(dotted, slot, v)
+        for via in ('ctor', 'marshal'):
+            got = probe(dotted, slot, name, via)
+            if got != (not ok):
+                raise Violation('%s:twin:%s' % ('accepts-invalid' if not ok else
+                                                'rejects-valid', via),
+                                '%s(%s=%r) via %s after an equal-comparing twin: '
+                                'ValueError %s, but the value is %s' %
+                                (dotted, slot, name, via,
+                                 'raised' if got else 'not raised',
+                                 'valid' if ok else 'invalid'))
+    return ['wrapped' if case['wrap'] else 'plain']
+
+
+def twin_cases(tier, shard, nshards):
+    pairs = [['stream', '\u017ftream'], ['\u017ftream', 'stream'], ['kelvin', '\u212aelvin'],
+             ['events', 'events\t\n'], ['events\t\n', 'events'], ['Queue', 'queue'],
+             ['queue', 'QUEUE', 'que\u00fce'], ['a b', ' a b '], ['stra\u00dfe', 'strasse'],
+             ['strasse', 'STRASSE', 'stra\u00dfe'], ['i', '\u0130', 'I'], ['x' * 127,
+                                                                           'X' * 128]]
+    out = []
+    for c, s, kind, limit in NAME_SLOTS:
+        if kind != 'name':
+            continue
+        for names in pairs:
+            for wrap in (True, False):
+                out.append({'cls': c, 'slot': s, 'names': names, 'wrap': wrap})
+    return out[shard::nshards]
+
+
 def ticket_bulk(tier, shard, nshards, rec):
     n = 0
     for dotted in spec_table.TICKET_CLASSES:
@@ -422,6 +463,11 @@ COMPONENTS = [
               exhaustive=True, shards={'quick': 8, 'thorough': 8},
               describe='classes with two name-constrained arguments: both set together, '
                        '10 x 10 boundary lengths, equal and different strings'),
+    Component('twins', check_twins, cases=twin_cases, distinct_by_construction=True,
+              shards={'quick': 8, 'thorough': 8},
+              describe='names of a str subclass with user-defined (case / whitespace '
+                       'insensitive) equality: equal-comparing twins with different '
+                       'characters validated one after the other'),
     Component('tickets', check, bulk=ticket_bulk, distinct_by_construction=True,
               exhaustive=True,
               describe='ticket 0..65535 x 12 classes x both paths'),
